@@ -5,6 +5,21 @@ HERE = os.path.dirname(os.path.dirname(os.path.abspath(__file__)))
 ALL = ["C%02d" % i for i in range(1, 21)]
 
 CHECKS = {
+ "C16": dict(
+  category="model_checking",
+  text="OpenApi.tla: a behaviour adds 1..3 models (5 name shapes x explicit/inferred primary key) one by one (AddModel = gen_routes + "
+       "upsert_routes) and then builds the document (Bulk = openapi_bulk), x 7 CRUD subsets x 2 prefixes; the document is modelled "
+       "as schema keys, request-body keys, $refs, (model, operation) pairs and declared path parameters; TLC checks Serialisable, "
+       "Closed, BodiesDefined, PathParamsDeclared and OpsExact (ideal, ~16k states) and their as-built weakening. Binding: every "
+       "behaviour (all 1-model, seeded 250 2-model in quick; all <=2-model + 1500 3-model in thorough) is laid out as real files "
+       "-- models emitted by the real SQLAlchemy emitter, routes by the real gen_routes/upsert_routes, the document by the real "
+       "openapi_bulk -- and the predicates are evaluated on the real document (json.dumps, every $ref resolved against the "
+       "components, request bodies, path template parameters, operations per path); the direct emitter openapi.emit is judged "
+       "the same way on 42 cases; routes.py must hold one route per requested operation and model.",
+  design_ref="DESIGN.md section 4, C16",
+  note="Trusted: the document projection ($ref collection, path/operation extraction).",
+  technique="TLA+ model of models/routes/document checked by TLC; every behaviour replayed through the real generators and judged "
+            "on the real document"),
  "C13": dict(
   category="model_checking",
   text="SyncProps.tla: the target definition as a sequence of slots [name, annotation, default, kw-only] (function, self/cls method "
